@@ -95,9 +95,44 @@ func instrDominates(a, b ssa.Instruction) bool {
 
 func isReturn(i ssa.Instruction) bool { _, ok := i.(*ssa.Return); return ok }
 
+// res returns the i-th result of a return, looking through the result cells that go/ssa
+// introduces in functions with defers (store; rundefers; load; return).
+func res(ret *ssa.Return, i int) ssa.Value {
+	v := ret.Results[i]
+	u, ok := v.(*ssa.UnOp)
+	if !ok || u.Op != token.MUL {
+		return v
+	}
+	al, ok := u.X.(*ssa.Alloc)
+	if !ok {
+		return v
+	}
+	b := ret.Block()
+	var last ssa.Value
+	for _, ins := range b.Instrs {
+		if ins == ssa.Instruction(u) {
+			break
+		}
+		if st, ok := ins.(*ssa.Store); ok && st.Addr == ssa.Value(al) {
+			last = st.Val
+		}
+	}
+	if last != nil {
+		return last
+	}
+	// single store anywhere
+	if st := singleStore(al); st != nil {
+		return st.Val
+	}
+	return v
+}
+
 func returnsOf(fn *ssa.Function) []*ssa.Return {
 	var out []*ssa.Return
 	for _, b := range fn.Blocks {
+		if b == fn.Recover {
+			continue
+		}
 		for _, i := range b.Instrs {
 			if r, ok := i.(*ssa.Return); ok {
 				out = append(out, r)
